@@ -159,6 +159,21 @@ CLAIMED = {
               "same locus as the flagged MCNP surface (after de-duplication, transformation, one-sheet cones). Open "
               "findings F2a/F2b/F22 are listed in known_findings.json."),
         design_ref='§8 C16'),
+    'C07': dict(
+        technique='Lean 4 proof (exhaustive case analysis over the arrangements of the listed planes by kernel evaluation; vector identities for centrally symmetric hexagons) + model↔code correspondence of the vertex traversal + Lean point monitor on hexagonal lattice decks',
+        text=("Proved in Lean: for each of the eight cyclic arrangements of the six listed side planes compatible with "
+              "MCNP's listing rule (per starting side; either neighbour pair, either order inside the pairs, last two "
+              "planes in either order) the traversal of hexVertices returns the six vertices going round, in one "
+              "direction or the other (traversal_goes_round_0/2, by kernel evaluation of the model); for any centrally "
+              "symmetric hexagon — regular or not, any orientation, over any field — the vector v[0] − v[2] is the same "
+              "for both directions and is the translation that maps the side opposite to the starting side onto it "
+              "(base_vector_carries, hex_base_vector): a1 across the first-listed plane, a2 across the third; elements "
+              "get their universes as in rectangular lattices (hex_fill_array_order, from C06). The traversal model is "
+              "compared with hexVertices on constructed regular and irregular hexagons in several planes, and "
+              "hexLatticeBaseVectors with the construction's translation vectors; the Lean reference semantics locates "
+              "sample points in hexagonal lattice decks (six and eight planes, three axes, all orders) against the "
+              "written file. Not proved: the geometric adjacency test (areHexSidesAdjacent) and the axial vector a3."),
+        design_ref='§8 C07'),
     'C08': dict(
         technique='Lean 4 proof (loop invariant of remove_empty_volumes, optimise invariant) + Lean reader evaluating WellFormed on the written bytes',
         text=("Proved in Lean: pot_optimise never leaves an intersection with one surface on both sides; after "
